@@ -388,7 +388,8 @@ def replay(ob):
     except Exception as e:  # noqa
         fails.append({"structure": "decorated graphene sheet", "observed": "%s: %s" % (type(e).__name__, e)})
     for name, at in extra + structures():
-        if name == "degenerate cell":
+        # C17 speaks about cells with non-zero volume (or entirely non-periodic structures)
+        if name == "degenerate cell" or name.startswith("slab with a zero cell vector"):
             continue
         p0 = at.get_positions().copy()
         try:
